@@ -308,3 +308,39 @@ def history_family():
         ["(define (f) 1)", "(define (g) (+ (f) (f)))", "(g)", "(define (f) 10)", "(g)", "(define (g) (+ (f) (f)))", "(g)"],
     ]
     return P
+
+
+def wide_family():
+    """operand-count boundaries of the native tier: calls with 0..12 arguments in every call shape (registers hold at most eight),
+    arithmetic / comparison instructions with 0..6 operands (native helpers exist for a few counts only), inside compiled functions"""
+    P = []
+    for n in range(0, 13):
+        ps = " ".join("a%d" % i for i in range(n))
+        args = " ".join(str(100 + i) for i in range(n))
+        call = "(g %s)" % args if n else "(g)"
+        deff = "(define (g %s) (list %s))" % (ps, ps) if n else "(define (g) (list))"
+        P.append([deff, "(define (f) (car (list %s)))" % call, "(f)"])                       # non-tail call of a global
+        P.append([deff, "(define (f) %s)" % call, "(f)"])                                      # tail call of a global
+        P.append([deff, "(define (f h) (car (list (h %s))))" % args, "(f g)"])                 # non-tail call through a local
+        P.append([deff, "(define (f h) (h %s))" % args, "(f g)"])                              # tail call through a local
+        P.append(["(define (f x) (car (list (list %s))))" % " ".join(["x"] * n), "(f 7)"])       # built-in, variadic
+        P.append(["(define (f x) (vector %s))" % " ".join(["x"] * n), "(vector-length (f 7))"])
+        P.append([deff, "(define (f) (let loop ((i 0) (acc '())) (if (< i 2) (loop (+ i 1) (cons %s acc)) acc)))" % call, "(f)"])
+        if n >= 1:
+            # a self tail call that passes n arguments
+            P.append(["(define (lp k %s) (if (= k 0) (list %s) (lp (- k 1) %s)))" % (ps, ps, " ".join("(+ a%d 1)" % i for i in range(n))),
+                      "(lp 3 %s)" % args])
+            # one argument too many / too few at a wide call site
+            P.append([deff, "(define (f) (g %s 1))" % args, "(with-handler (lambda (e) 'err) (f))"])
+            P.append([deff, "(define (f) (g %s))" % " ".join(str(100 + i) for i in range(n - 1)), "(with-handler (lambda (e) 'err) (f))"])
+    ops = ["+", "-", "*", "/", "<", "<=", ">", ">=", "="]
+    for op in ops:
+        for n in range(0, 7):
+            lits = " ".join(str(i + 2) for i in range(n))
+            vars_ = " ".join(["x", "y", "x", "y", "x", "y"][:n])
+            P.append(["(define (f x y) (%s %s))" % (op, vars_), "(with-handler (lambda (e) 'err) (list (f 7 3) (f 3 7) (f 2 2)))"])
+            P.append(["(define (f x y) (list (%s %s)))" % (op, lits), "(with-handler (lambda (e) 'err) (f 1 1))"])
+            if n >= 1:
+                P.append(["(define (f x y) (%s x %s))" % (op, " ".join(str(i + 2) for i in range(n - 1))), "(with-handler (lambda (e) 'err) (list (f 1 1) (f 30 1)))"])
+                P.append(["(define (f x y) (if (%s %s) 'yes 'no))" % (op, vars_), "(with-handler (lambda (e) 'err) (list (f 7 3) (f 3 7) (f 2 2)))"])
+    return P
